@@ -64,7 +64,10 @@ def main_copy(d, checks, tier, no_suite):
     os.rmdir(wt)
     out = tempfile.mkdtemp(prefix="seedout_", dir="/tmp")
     res = {"dir": d, "tier": tier, "checks": {}, "copy": wt}
-    assert sh(f"git -C /repo worktree add --detach {wt} HEAD -q").returncode == 0
+    meta_p = os.path.join(d, "meta.json")
+    base = (json.load(open(meta_p)).get("base_commit") if os.path.exists(meta_p) else None) or "HEAD"   # a change written against an older tree
+    res["base"] = base
+    assert sh(f"git -C /repo worktree add --detach {wt} {base} -q").returncode == 0
     try:
         res["demo_unchanged_rc"] = sh(f"cd {wt} && /venv/bin/python {demo}", timeout=300).returncode
         a = sh(f"git -C {wt} apply {patch}")
